@@ -18,7 +18,7 @@ META = {
                    "A source reaching an ordered sink unsanitised, or a loop exit other than exhaustion inside an unordered loop, is a violation naming both. "
                    "R13.deferred: analyze_dir pushes (file, lines) in listing order into the returned map; this is discharged only because every consumer sorts "
                    "each per-pattern list before rendering (checked). R13.noseed: no rand / time / pid / env reads in the analysed call graph.",
-    "assumptions": ["slice::sort* and Ord for (String, BTreeSet<i32>) are total orders (std contract)",
+    "assumptions": ["slice::sort* and Ord for (String, BTreeSet<integer>) are total orders (std contract)",
                     "BTreeSet/BTreeMap iterate in key order (std contract)"],
     "floors": {"R13.loop": 12, "R13.sanitizer": 6, "R13.deferred": 3},
 }
@@ -40,7 +40,8 @@ def is_generator(body):
     if body.arg_count < 1:
         return False
     t = body.local_ty(1)
-    return t.startswith("std::collections::HashMap<") and "std::vec::Vec<(std::string::String, std::collections::BTreeSet<i32>)>" in t
+    # the findings map: pattern -> [(file name, line collection)]; the line collection's own iteration order is classified at its loop
+    return t.startswith("std::collections::HashMap<") and "std::vec::Vec<(std::string::String, std::collections::" in t
 
 
 def rooted_at_param(t):
